@@ -630,7 +630,7 @@ class Engine:
             if m: return const_int(int(m.group(1)), m.group(2))
             if c in ('true', 'false'): return B(TRUE if c == 'true' else FALSE)
             if c == '()': return Unit()
-            m = re.match(r'^core::num::<impl (\w+)>::(MAX|MIN)$', c)
+            m = re.match(r'^core::num::<impl (\w+)>::(MAX|MIN)$', c) or re.match(r'^([ui](?:8|16|32|64|128|size))::(MAX|MIN)$', c)
             if m:
                 ty = m.group(1); k = BITS[ty]
                 if ty.startswith('u'): v = (1 << k) - 1 if m.group(2) == 'MAX' else 0
@@ -696,7 +696,15 @@ class Engine:
                 ov = T.or_(T.cmp('<', raw, C(lo)), T.cmp('>', raw, C(hi)))
                 return S([I(T.wrap(raw, k, sg), ty), B(ov)])
             if op in ('Div', 'Rem'):
-                if sg: raise NotImplementedError('signed div')
+                if sg:
+                    # Rust signed division truncates toward zero: q = sgn(a)*sgn(b)*(|a| div |b|), r = a - q*b
+                    absa = T.ite(T.cmp('<', a.t, C(0)), T.sub(C(0), a.t), a.t)
+                    absb = T.ite(T.cmp('<', b.t, C(0)), T.sub(C(0), b.t), b.t)
+                    qa, ra = self.divrem(absa, absb, side)
+                    neg = T.not_(T.beq(T.cmp('<', a.t, C(0)), T.cmp('<', b.t, C(0))))
+                    q = T.ite(neg, T.sub(C(0), qa), qa)
+                    if op == 'Div': return I(q, ty)
+                    return I(T.ite(T.cmp('<', a.t, C(0)), T.sub(C(0), ra), ra), ty)
                 q, r = self.divrem(a.t, b.t, side)
                 return I(q if op == 'Div' else r, ty)
             if op == 'Shr':
@@ -1130,6 +1138,11 @@ def default_models():
     def _(e, c, a, p):
         x, = a
         yield p, I(T.ite(T.cmp('<', x.t, C(0)), T.sub(C(0), x.t), x.t), 'u' + x.ty[1:])
+
+    @reg(r'<impl i\d+>::signum$')
+    def _(e, c, a, p):
+        x, = a
+        yield p, I(T.ite(T.cmp('<', x.t, C(0)), C(-1), T.ite(T.cmp('=', x.t, C(0)), C(0), C(1))), x.ty)
 
     @reg(r'<impl i\d+>::abs$')
     def _(e, c, a, p):
